@@ -92,6 +92,15 @@ theorem shape_SkipIterRefresh_ok : SkipConc_SkipIterRefresh =
 theorem shape_SkipIterClose_ok : SkipConc_SkipIterClose =
     ["if(!= nil)", "Release"] := rfl
 
+theorem shape_SkipIterPause_ok : SkipConc_SkipIterPause =
+    ["if(!= nil)", "Release"] := rfl
+
+theorem shape_SkipIterResume_ok : SkipConc_SkipIterResume =
+    ["Acquire"] := rfl
+
+theorem shape_SkipIterSetRefreshInterval_ok : SkipConc_SkipIterSetRefreshInterval =
+    [] := rfl
+
 /-- skiplist/node_amd64.go `*Node.setNext` -/
 theorem shape_setNext_ok : SkipConc_setNext =
     ["if(== 0)"] := rfl
